@@ -1066,7 +1066,9 @@ pub fn run(tier: Tier) -> Report {
         parent-relative, source/alias-prefixed, folder, @self) x generator and rule pipeline after bundling; (B) one module required through all its spellings at once from every other file; (C) all \
         cycles on up to three modules incl. through the entry and behind a DAG, and malformed modules (syntax error, no/empty/two-value return, missing file, malformed data, unknown or missing \
         extension, unknown source) in six require positions: an error naming the files, no output, no panic; (D) excluded requires; (E) module details (top-level varargs, shadowed require, names of \
-        the bundle internals, shared globals, chain of eight, requires in every expression position, exported types). Oracle: the reference interpreter runs the entry with a model `require` (one \
+        the bundle internals, shared globals, chain of eight, requires in every expression position, exported types); (F) projects written to disk and bundled by the real `darklua process` binary: the entry \
+        and the `-c` configuration spelled relatively, with `./`, absolutely, through `../<project>/` and through a sub-folder, darklua started at the project root or inside `src` / a sibling folder, a module reached \
+        through a configured source and through relative paths, or from its own folder and from a sibling one. Oracle: the reference interpreter runs the entry with a model `require` (one \
         evaluation per resolved file, cached value incl. nil/false, data files parsed) and runs the bundle with a `require` that only knows the excluded modules; the entry walks the whole graph, \
         calls every stateful value and returns a log plus the graph itself, serialised with table identities; both runs must agree. non-trivial = cases with at least two requirers of one module"
         .to_owned();
@@ -1074,6 +1076,7 @@ pub fn run(tier: Tier) -> Report {
         "module bodies have no externally visible effect at require time (only internal state, observed later through the values), as the property requires".to_owned(),
         "resolution of require strings in the reference run uses the C15 reference resolver; resources are in memory".to_owned(),
         "a module declaring a local with the configured modules_identifier (default __DARKLUA_BUNDLE_MODULES) collides with the documented, configurable name and is not judged; a module must end with a `return` statement at its top level".to_owned(),
+        "family (F) uses the real file system under /verif/target/tmp (removed after each run); symbolic links are not created".to_owned(),
         "a model `require` passes no arguments to the module chunk (Luau behaviour); modules that depend on the value of `...` are outside the common dialect".to_owned(),
     ];
     let mut programs = Vec::new();
